@@ -105,8 +105,8 @@ def work_basis(task, p):
             want[k] = 1
             want[0] = 0
         got = np.broadcast_to(np.asarray(v, dtype=float), (K,))
-        if not np.array_equal(got, want):
-            j = int(np.argmax(got != want))
+        if not np.allclose(got, want, rtol=0, atol=1e-9):
+            j = int(np.argmax(np.abs(got - want)))
             bad.append("for the state (I+P_%d)/2^n the fitter reports <%s> = %s, exact value %s" % (j, P.to_label()[::-1], got[j], want[j]))
         p.counters["pauli x basis-state values compared"] += K
     if len(seen) != K:
